@@ -59,7 +59,7 @@ Print Assumptions C14_vote_refused_while_leader_known.
 Example C14_nontrivial :
   let cfg := [mkSrv 0 1 1; mkSrv 0 2 2; mkSrv 0 3 3] in
   let P := mkP 1 false false false 100 4 (fun _ => cfg) in
-  let s := mkNS 3 0 None ∅ 0 0 [] Follower 3 0 0 1 1 0 0 cfg 1 cfg 1 0 0 false [] in
+  let s := mkNS 3 0 None ∅ 0 0 [] Follower 3 0 0 1 1 0 0 cfg 1 cfg 1 0 0 false [] (0, 0) in
   let '(x0, _) := sess_enter P true s in
   (let '(x, tr) := sess_run P true x0 [CPre (mkVR 4 false); CTimeout; CPre (mkVR 4 false); CPre (mkVR 3 false); CTimeout] in
    d_term (sess_state x) = 3 /\ tr = []) /\
